@@ -1,7 +1,495 @@
-//! C30 — not implemented yet (see DESIGN.md section 4).
-use kit::Run;
-use serde_json::Value;
+//! C30 — remote manifest references round-trip through XMP; embedding preserves pre-existing XMP properties.
+//!
+//! S-inp, level exploration. For every kit asset whose handler supports remote references
+//! (`verif_hooks::supports_remote_ref`), with and without pre-existing XMP (kit jpeg/png XMP variants plus a JPEG with a
+//! rich packet: entities, numeric character references, non-ASCII, nested elements, comment, CDATA, an existing
+//! dcterms:provenance; and a JPEG whose packet has a single-quoted attribute containing a double quote), and for every URL
+//! of the grammar path x query x fragment (query strings, fragments, percent escapes, each of & < > " ' and non-ASCII in
+//! every position; thorough adds host / port / userinfo / scheme variants): sign with Builder::set_remote_url +
+//! set_no_embed(true), then read with remote fetching disabled.
+//!
+//! Oracle: when signing succeeds the read must fail with Error::RemoteManifestUrl(u) and u must equal the input URL.
+//! Because the SDK stores `url::Url::parse(input).to_string()`, a `u` that differs from the input only by URL
+//! normalisation (percent-encoding of characters, host case, default port, empty path) is accepted and counted as
+//! `normalised-equivalent`; anything else (e.g. XML entities left in the value) is a violation. Every property
+//! (attribute or child element of rdf:Description) of the original packet, extracted by the harness's own tiny XMP
+//! parser, must be present with the same value in the packet read back from the signed asset (dcterms:provenance itself
+//! excepted).
+//!
+//! Mutants caught (tools/mutant_run.sh D <patch> C30 quick):
+//!   C30-drop-existing-attrs.diff   (add_xmp_key no longer copies the other attributes of rdf:Description)
+//!   C30-strip-fragment.diff        (the stored remote URL loses its fragment)
 
-pub fn run(_run: &Run, _replay: Option<&Value>) {
-    kit::ev::machinery("C30: check not implemented");
+use std::collections::BTreeMap;
+
+use kit::{assets, par, sdk, Run};
+use serde_json::{json, Value};
+
+static CAP: kit::net::KeyCap = kit::net::KeyCap::new(40);
+const DEF: &str = r#"{"title":"t","claim_generator_info":[{"name":"verif","version":"1"}]}"#;
+
+// ---------------------------------------------------------------------------------------------
+// URL grammar
+// ---------------------------------------------------------------------------------------------
+
+fn urls(thorough: bool) -> Vec<String> {
+    let mut paths = vec!["m.c2pa", "a%20b/m%2Fn", "p&q/m", "it's/m;v=1,2"];
+    let mut queries = vec!["", "?a=1", "?a=1&b=2", "?x='y'", "?q=%26%3C%3E%22%27", "?x=\"y\"&z=<w>", "?k=ü&j=日本"];
+    let mut frags = vec!["", "#f", "#a&b='c'", "#<t>\"q\"ü"];
+    if thorough {
+        paths.extend(["<p>/\"q\"/m", "ü/日本/m", "(x)!*$:@+~/m", "a&amp;b/m"]);
+        queries.extend(["?a=1&amp;b=2", "?a=&lt;&gt;&quot;&apos;", "?&&", "?x=%", "?a=1;b=2", "?a[]=1&a[]=2"]);
+        frags.extend(["#%23", "#&amp;", "#a=1&b=2"]);
+    }
+    let mut v = vec![];
+    for p in &paths {
+        for q in &queries {
+            for f in &frags {
+                v.push(format!("https://h.example/{p}{q}{f}"));
+            }
+        }
+    }
+    if thorough {
+        for auth in ["H.Example", "bücher.example", "h.example:8443", "h.example:443", "u:p@h.example", "[2001:db8::1]", "h.example."] {
+            for tail in ["/m?a=1&b=2#f", "", "/"] {
+                v.push(format!("https://{auth}{tail}"));
+                v.push(format!("http://{auth}{tail}"));
+            }
+        }
+    }
+    v
+}
+
+// ---------------------------------------------------------------------------------------------
+// URL equivalence modulo normalisation (harness side, independent of the `url` crate)
+// ---------------------------------------------------------------------------------------------
+
+fn pct_decode(s: &str) -> Vec<u8> {
+    let b = s.as_bytes();
+    let mut out = vec![];
+    let mut i = 0;
+    while i < b.len() {
+        if b[i] == b'%' && i + 2 < b.len() {
+            if let (Some(h), Some(l)) = ((b[i + 1] as char).to_digit(16), (b[i + 2] as char).to_digit(16)) {
+                out.push((h * 16 + l) as u8);
+                i += 3;
+                continue;
+            }
+        }
+        out.push(b[i]);
+        i += 1;
+    }
+    out
+}
+
+/// (scheme, authority, rest) with scheme/authority lower-cased, default port dropped, empty path -> "/".
+fn url_parts(u: &str) -> Option<(String, String, Vec<u8>)> {
+    let i = u.find("://")?;
+    let scheme = u[..i].to_ascii_lowercase();
+    let rest = &u[i + 3..];
+    let end = rest.find(['/', '?', '#']).unwrap_or(rest.len());
+    let mut auth = rest[..end].to_lowercase();
+    let dflt = if scheme == "https" { ":443" } else { ":80" };
+    if let Some(a) = auth.strip_suffix(dflt) {
+        auth = a.to_string();
+    }
+    let mut tail = rest[end..].to_string();
+    if !tail.starts_with('/') {
+        tail = format!("/{tail}");
+    }
+    Some((scheme, auth, pct_decode(&tail)))
+}
+
+#[derive(PartialEq, Debug)]
+enum UrlCmp {
+    Identical,
+    NormalisedEquivalent,
+    Different,
+}
+
+fn compare_urls(got: &str, input: &str) -> UrlCmp {
+    if got == input {
+        return UrlCmp::Identical;
+    }
+    match (url_parts(got), url_parts(input)) {
+        (Some((s1, a1, t1)), Some((s2, a2, t2))) => {
+            let auth_ok = a1 == a2 || (!a2.is_ascii() && a1.contains("xn--")); // IDNA ToASCII of a non-ASCII host
+            if s1 == s2 && auth_ok && t1 == t2 {
+                UrlCmp::NormalisedEquivalent
+            } else {
+                UrlCmp::Different
+            }
+        }
+        _ => UrlCmp::Different,
+    }
+}
+
+fn xml_unescape(s: &str) -> Option<String> {
+    let mut out = String::new();
+    let mut rest = s;
+    while let Some(i) = rest.find('&') {
+        out.push_str(&rest[..i]);
+        let after = &rest[i + 1..];
+        let semi = after.find(';')?;
+        let ent = &after[..semi];
+        let ch = match ent {
+            "amp" => '&',
+            "lt" => '<',
+            "gt" => '>',
+            "quot" => '"',
+            "apos" => '\'',
+            _ if ent.starts_with("#x") || ent.starts_with("#X") => char::from_u32(u32::from_str_radix(&ent[2..], 16).ok()?)?,
+            _ if ent.starts_with('#') => char::from_u32(ent[1..].parse().ok()?)?,
+            _ => return None,
+        };
+        out.push(ch);
+        rest = &after[semi + 1..];
+    }
+    out.push_str(rest);
+    Some(out)
+}
+
+// ---------------------------------------------------------------------------------------------
+// tiny XMP property extractor (harness side)
+// ---------------------------------------------------------------------------------------------
+
+/// Properties of every rdf:Description: "@name" -> unescaped attribute value, "name" -> raw inner XML of a child element.
+fn xmp_props(xmp: &str) -> Result<BTreeMap<String, String>, String> {
+    let mut props = BTreeMap::new();
+    let mut pos = 0;
+    let mut found = false;
+    while let Some(i) = xmp[pos..].find("<rdf:Description") {
+        found = true;
+        let start = pos + i + "<rdf:Description".len();
+        // attributes
+        let b = xmp.as_bytes();
+        let mut j = start;
+        let self_closing;
+        loop {
+            while j < b.len() && (b[j] as char).is_ascii_whitespace() {
+                j += 1;
+            }
+            if j >= b.len() {
+                return Err("unterminated rdf:Description start tag".into());
+            }
+            if b[j] == b'>' {
+                self_closing = false;
+                j += 1;
+                break;
+            }
+            if b[j] == b'/' && b.get(j + 1) == Some(&b'>') {
+                self_closing = true;
+                j += 2;
+                break;
+            }
+            let name_start = j;
+            while j < b.len() && b[j] != b'=' && !(b[j] as char).is_ascii_whitespace() && b[j] != b'>' && b[j] != b'/' {
+                j += 1;
+            }
+            let name = &xmp[name_start..j];
+            if name.is_empty() || name.contains(['"', '\'', '<']) {
+                return Err(format!("malformed attribute name near byte {name_start}: {:?}", &xmp[name_start..(name_start + 24).min(xmp.len())]));
+            }
+            while j < b.len() && (b[j] as char).is_ascii_whitespace() {
+                j += 1;
+            }
+            if b.get(j) != Some(&b'=') {
+                return Err(format!("attribute {name} has no value"));
+            }
+            j += 1;
+            while j < b.len() && (b[j] as char).is_ascii_whitespace() {
+                j += 1;
+            }
+            let q = *b.get(j).ok_or("eof in attribute")?;
+            if q != b'"' && q != b'\'' {
+                return Err(format!("attribute {name} value is not quoted"));
+            }
+            j += 1;
+            let vstart = j;
+            while j < b.len() && b[j] != q {
+                j += 1;
+            }
+            if j >= b.len() {
+                return Err(format!("attribute {name} value is not terminated"));
+            }
+            let raw = &xmp[vstart..j];
+            j += 1;
+            // after a value there must be whitespace, '>' or '/>'
+            match b.get(j) {
+                Some(c) if (*c as char).is_ascii_whitespace() || *c == b'>' || *c == b'/' => {}
+                _ => return Err(format!("garbage after the value of attribute {name}")),
+            }
+            if raw.contains('<') {
+                return Err(format!("attribute {name} value contains '<'"));
+            }
+            let val = xml_unescape(raw).ok_or(format!("attribute {name} has a malformed entity: {raw}"))?;
+            props.insert(format!("@{name}"), val);
+        }
+        pos = j;
+        if self_closing {
+            continue;
+        }
+        // child elements until </rdf:Description>
+        let end = xmp[pos..].find("</rdf:Description>").ok_or("rdf:Description not closed")? + pos;
+        let body = &xmp[pos..end];
+        let mut k = 0;
+        while let Some(lt) = body[k..].find('<') {
+            let s = k + lt;
+            if body[s..].starts_with("<!--") {
+                k = s + body[s..].find("-->").ok_or("comment not closed")? + 3;
+                continue;
+            }
+            if body[s..].starts_with("<?") {
+                k = s + body[s..].find("?>").ok_or("PI not closed")? + 2;
+                continue;
+            }
+            let name_end = body[s + 1..].find(|c: char| c.is_ascii_whitespace() || c == '>' || c == '/').ok_or("child start tag")? + s + 1;
+            let name = &body[s + 1..name_end];
+            let tag_end = body[s..].find('>').ok_or("child start tag not closed")? + s;
+            if body[..tag_end].ends_with('/') {
+                props.insert(name.to_string(), String::new());
+                k = tag_end + 1;
+                continue;
+            }
+            let close = format!("</{name}>");
+            let c = body[tag_end..].find(&close).ok_or(format!("child {name} not closed"))? + tag_end;
+            props.insert(name.to_string(), body[tag_end + 1..c].trim().to_string());
+            k = c + close.len();
+        }
+        pos = end;
+    }
+    if !found {
+        return Err("no rdf:Description".into());
+    }
+    Ok(props)
+}
+
+// ---------------------------------------------------------------------------------------------
+// assets
+// ---------------------------------------------------------------------------------------------
+
+fn jpeg_with_packet(xmp: &str) -> Vec<u8> {
+    let base = assets::jpeg();
+    let mut seg = b"http://ns.adobe.com/xap/1.0/\0".to_vec();
+    seg.extend_from_slice(xmp.as_bytes());
+    let mut v = base[..20].to_vec();
+    v.extend_from_slice(&[0xFF, 0xE1]);
+    v.extend_from_slice(&((seg.len() + 2) as u16).to_be_bytes());
+    v.extend(seg);
+    v.extend_from_slice(&base[20..]);
+    v
+}
+
+fn rich_packet() -> String {
+    "<?xpacket begin=\"\u{feff}\" id=\"W5M0MpCehiHzreSzNTczkc9d\"?>\n<x:xmpmeta xmlns:x=\"adobe:ns:meta/\" x:xmptk=\"verif\">\n <rdf:RDF xmlns:rdf=\"http://www.w3.org/1999/02/22-rdf-syntax-ns#\">\n  <rdf:Description rdf:about=\"\"\n    xmlns:dc=\"http://purl.org/dc/elements/1.1/\" xmlns:xmp=\"http://ns.adobe.com/xap/1.0/\"\n    xmlns:dcterms=\"http://purl.org/dc/terms/\" xmlns:v=\"http://verif.example/ns/\"\n    xmp:CreatorTool=\"kit &amp; co &lt;1&gt;\" v:apos=\"it&apos;s\" v:quot=\"say &quot;hi&quot;\" v:num=\"&#x41;&#66;\" v:uni=\"größe ✓\" v:ws=\"  two  spaces  \"\n    dcterms:provenance=\"https://old.example/old?x=1&amp;y=2\">\n   <dc:title><rdf:Alt><rdf:li xml:lang=\"x-default\">T &amp; t</rdf:li></rdf:Alt></dc:title>\n   <xmp:Rating>3</xmp:Rating>\n   <v:empty/>\n   <!-- a comment -->\n   <v:cdata><![CDATA[a < b & c]]></v:cdata>\n  </rdf:Description>\n </rdf:RDF>\n</x:xmpmeta>\n<?xpacket end=\"w\"?>"
+        .to_string()
+}
+
+fn squote_packet() -> String {
+    assets::xmp_packet(" xmlns:v=\"http://verif.example/ns/\" v:quote='say \"hi\"'")
+}
+
+struct Subject {
+    name: String,
+    mime: &'static str,
+    data: Vec<u8>,
+    /// the XMP packet the asset carries before signing
+    xmp: Option<String>,
+}
+
+fn subjects() -> Vec<Subject> {
+    let mut v = vec![];
+    for a in assets::all() {
+        if !c2pa::verif_hooks::supports_remote_ref(a.mime) {
+            continue;
+        }
+        if ["jpeg-rst", "gif-ext", "mp3-bare", "mp4-mdat-first"].contains(&a.name) {
+            continue; // structural variants without XMP relevance
+        }
+        let xmp = if a.name.ends_with("-xmp") { Some(assets::xmp_packet("")) } else { None };
+        v.push(Subject { name: a.name.to_string(), mime: a.mime, data: a.data, xmp });
+    }
+    v.push(Subject { name: "jpeg-xmp-rich".into(), mime: "image/jpeg", data: jpeg_with_packet(&rich_packet()), xmp: Some(rich_packet()) });
+    v.push(Subject { name: "jpeg-xmp-squote".into(), mime: "image/jpeg", data: jpeg_with_packet(&squote_packet()), xmp: Some(squote_packet()) });
+    v
+}
+
+// ---------------------------------------------------------------------------------------------
+
+#[derive(Debug)]
+enum Outcome {
+    SignRefused(String),
+    Done { read: String, url: Option<String>, xmp_after: Option<String> },
+    Panic(String),
+}
+
+/// Remote fetching off and, should the tree under test ask anyway, a transport that answers 404 instead of the real network.
+fn offline_ctx() -> c2pa::Context {
+    let t = kit::net::Transport::new(|_, _| kit::net::Answer::status(404));
+    sdk::ctx().with_resolver(t.clone()).with_resolver_async(t)
+}
+
+fn execute(s: &Subject, url: &str) -> Outcome {
+    let signer = sdk::fixture_signer("ed25519");
+    let r = par::guard(|| {
+        // Create intent: no parent ingredient is derived from the source, so a pre-existing dcterms:provenance in the
+        // source packet (rich variant) does not make the builder look for a parent manifest
+        let mut b = c2pa::Builder::from_context(offline_ctx())
+            .with_definition(DEF)
+            .unwrap_or_else(|e| kit::ev::machinery(format!("C30: definition rejected: {e:?}")));
+        b.set_intent(c2pa::BuilderIntent::Create(c2pa::DigitalSourceType::DigitalCapture));
+        b.set_remote_url(url);
+        b.set_no_embed(true);
+        match sdk::sign(&mut b, signer.as_ref(), s.mime, &s.data) {
+            Err(e) => Outcome::SignRefused(format!("{e:?}").chars().take(160).collect()),
+            Ok((bytes, _manifest)) => {
+                let (read, u) = match sdk::read(offline_ctx(), s.mime, &bytes) {
+                    Ok(rd) => (format!("Ok({})", sdk::state_name(rd.validation_state())), None),
+                    Err(c2pa::Error::RemoteManifestUrl(u)) => ("Err(RemoteManifestUrl)".to_string(), Some(u)),
+                    Err(e) => (format!("Err({})", sdk::err_kind(&e)), None),
+                };
+                Outcome::Done { read, url: u, xmp_after: c2pa::verif_hooks::read_xmp(s.mime, &bytes) }
+            }
+        }
+    });
+    r.unwrap_or_else(Outcome::Panic)
+}
+
+fn special_chars(url: &str) -> String {
+    let mut v: Vec<&str> = vec![];
+    for (c, n) in [('&', "amp"), ('<', "lt"), ('>', "gt"), ('"', "quot"), ('\'', "apos")] {
+        if url.contains(c) {
+            v.push(n);
+        }
+    }
+    if !url.is_ascii() {
+        v.push("non-ascii");
+    }
+    if v.is_empty() {
+        "none".into()
+    } else {
+        v.join("+")
+    }
+}
+
+fn judge(run: &Run, s: &Subject, url: &str, out: &Outcome) {
+    let case = json!({"asset": s.name, "url": url});
+    match out {
+        Outcome::Panic(p) => CAP.violation(run, format!("panic fmt={}", s.name), || p.clone(), || case),
+        Outcome::SignRefused(k) => run.outcome(format!("sign-refused:{}:{}", k.split(|c: char| !(c.is_alphanumeric() || c == '_')).next().unwrap_or(""), s.name)),
+        Outcome::Done { read, url: got, xmp_after } => {
+            match got {
+                None => CAP.violation(run, format!("no-remote-url-error result={read} fmt={}", s.name), || format!("signed with remote URL {url} (no embed) but reading with fetch disabled gave {read} instead of RemoteManifestUrl"), || case.clone()),
+                Some(g) => match compare_urls(g, url) {
+                    UrlCmp::Identical => run.outcome("url:identical"),
+                    UrlCmp::NormalisedEquivalent => run.outcome("url:normalised-equivalent"),
+                    UrlCmp::Different => {
+                        // classify: does undoing XML escaping give the input back?
+                        let kind = match xml_unescape(g) {
+                            Some(un) if compare_urls(&un, url) != UrlCmp::Different => {
+                                let ents: Vec<&str> = ["&amp;", "&lt;", "&gt;", "&quot;", "&apos;"].iter().copied().filter(|e| g.contains(e)).collect();
+                                format!("xml-entities-left-escaped ents={}", ents.join(","))
+                            }
+                            _ => "other".to_string(),
+                        };
+                        run.outcome("url:DIFFERENT");
+                        // the entity defect is format independent (one shared XMP reader): no fmt in its key, so it cannot crowd other keys out
+                        let key = if kind.starts_with("xml-entities") { format!("url-mismatch kind={kind}") } else { format!("url-mismatch kind={kind} fmt={}", s.name) };
+                        CAP.violation(run, key, || format!("embedded {url:?} (special characters: {}), reader reports {g:?}", special_chars(url)), || case.clone());
+                    }
+                },
+            }
+            if let Some(orig) = &s.xmp {
+                let before = xmp_props(orig).unwrap_or_else(|e| kit::ev::machinery(format!("C30: own parser cannot read the seed packet of {}: {e}", s.name)));
+                match xmp_after {
+                    None => CAP.violation(run, format!("xmp-lost fmt={}", s.name), || "no XMP packet can be read from the signed asset".to_string(), || case.clone()),
+                    Some(after_txt) => match xmp_props(after_txt) {
+                        Err(e) => CAP.violation(run, format!("xmp-malformed-after-embedding fmt={}", s.name), || format!("the XMP packet of the signed asset is no longer well-formed: {e}"), || case.clone()),
+                        Ok(after) => {
+                            for (k, v) in &before {
+                                if k == "@dcterms:provenance" {
+                                    continue;
+                                }
+                                match after.get(k) {
+                                    Some(v2) if v2 == v => {}
+                                    Some(v2) => CAP.violation(run, format!("xmp-property-changed prop={k} fmt={}", s.name), || format!("property {k} was {v:?} and is {v2:?} after embedding the remote reference"), || case.clone()),
+                                    None => CAP.violation(run, format!("xmp-property-lost prop={k} fmt={}", s.name), || format!("property {k} ({v:?}) is gone after embedding the remote reference"), || case.clone()),
+                                }
+                            }
+                            run.outcome("xmp:compared");
+                        }
+                    },
+                }
+            }
+        }
+    }
+}
+
+pub fn run(run: &Run, replay: Option<&Value>) {
+    run.rule(
+        "one case = (asset, URL): sign with set_remote_url + set_no_embed(true), read with remote fetching disabled, compare the URL carried by \
+         Error::RemoteManifestUrl with the input and the pre-existing XMP properties with the packet read back. non-trivial = cases whose signing \
+         succeeded (each is a complete round trip), identified by (asset, URL).",
+    );
+    run.assume("a reported URL that differs from the input only by URL normalisation (percent-encoding, host case / IDNA, default port, empty path) is accepted, because the SDK stores url::Url::parse(input).to_string()");
+    run.assume("XMP packets are fetched from the signed asset with the SDK's own handler (verif_hooks::read_xmp); property parsing is the harness's");
+    let subs = subjects();
+    // seed preconditions: the handler returns exactly the packet we planted, and our parser understands it
+    for s in &subs {
+        if let Some(x) = &s.xmp {
+            let got = c2pa::verif_hooks::read_xmp(s.mime, &s.data);
+            if got.as_deref() != Some(x.as_str()) {
+                kit::ev::machinery(format!("C30: seed {} does not give its planted XMP packet back", s.name));
+            }
+            let p = xmp_props(x).unwrap_or_else(|e| kit::ev::machinery(format!("C30: own parser rejects the seed packet of {}: {e}", s.name)));
+            if p.len() < 3 {
+                kit::ev::machinery(format!("C30: seed packet of {} has too few properties", s.name));
+            }
+        }
+    }
+    if let Some(c) = replay {
+        let name = c["asset"].as_str().unwrap_or("");
+        let url = c["url"].as_str().unwrap_or("");
+        let s = subs.iter().find(|s| s.name == name).unwrap_or_else(|| kit::ev::machinery("replay: unknown asset"));
+        let out = execute(s, url);
+        println!("replay {name} {url:?}: {out:?}");
+        run.eval();
+        judge(run, s, url, &out);
+        return;
+    }
+    let urls = urls(run.tier.is_thorough());
+    run.extra("assets", json!(subs.iter().map(|s| s.name.clone()).collect::<Vec<_>>()));
+    run.extra("urls", json!(urls.len()));
+    // determinism
+    {
+        let a = format!("{:?}", execute(&subs[0], &urls[1]));
+        let b = format!("{:?}", execute(&subs[0], &urls[1]));
+        if a != b {
+            kit::ev::machinery("C30: baseline case is not deterministic");
+        }
+    }
+    let cases: Vec<(usize, usize)> = (0..subs.len()).flat_map(|s| (0..urls.len()).map(move |u| (s, u))).collect();
+    run.space("assets with remote-reference support (with / without XMP) x URL grammar", cases.len() as u64, true);
+    let ok_per_asset: Vec<std::sync::atomic::AtomicU64> = subs.iter().map(|_| Default::default()).collect();
+    par::for_each(&cases, |(si, ui)| {
+        let (s, url) = (&subs[*si], &urls[*ui]);
+        let out = execute(s, url);
+        run.eval();
+        if let Outcome::Done { .. } = out {
+            run.nontrivial(format!("{}|{url}", s.name));
+            ok_per_asset[*si].fetch_add(1, std::sync::atomic::Ordering::Relaxed);
+        }
+        judge(run, s, url, &out);
+    });
+    let never: Vec<&str> = subs.iter().zip(&ok_per_asset).filter(|(_, n)| n.load(std::sync::atomic::Ordering::Relaxed) == 0).map(|(s, _)| s.name.as_str()).collect();
+    run.extra("assets_for_which_signing_never_succeeded", json!(never));
+    if never.len() == subs.len() {
+        kit::ev::machinery("C30: signing with a remote reference never succeeded");
+    }
+    CAP.report(run);
+    for (si, ui) in [(0usize, 2usize), (1, 3)] {
+        if si < subs.len() && ui < urls.len() {
+            run.sample(json!({"asset": subs[si].name, "url": urls[ui], "observed": format!("{:?}", execute(&subs[si], &urls[ui])).chars().take(600).collect::<String>()}));
+        }
+    }
 }
